@@ -36,10 +36,56 @@ def known(r, kind):
             "hierarchical_levels": s.get("hierarchical_levels", 4), "logical_processors": s.get("logical_processors")}
 
 
+KERNEL_THREADS = ["resource_coordination_kernel", "picture_analysis_kernel", "picture_decision_kernel", "motion_estimation_kernel",
+                  "initial_rate_control_kernel", "source_based_operations_kernel", "picture_manager_kernel", "rate_control_kernel",
+                  "mode_decision_configuration_kernel", "mode_decision_kernel", "dlf_kernel", "cdef_kernel", "rest_kernel",
+                  "entropy_coding_kernel", "packetization_kernel"]
+
+
+def kernel_ranges():
+    """code range of every pipeline kernel's thread function in the recorder binary (static, -no-pie)."""
+    from checks import common
+    exe = common.enc_record_exe()
+    rc, out = vlib.sh(["nm", "-S", "--defined-only", exe], timeout=120)
+    rg = {}
+    for l in out.splitlines():
+        f = l.split()
+        if len(f) == 4 and f[2] in "tT" and f[3] in KERNEL_THREADS:
+            rg[f[3]] = (int(f[0], 16), int(f[0], 16) + int(f[1], 16))
+    if len(rg) < 12:
+        raise vlib.ModelFailure("could not locate the pipeline kernels in the recorder binary (%d found)" % len(rg))
+    return rg
+
+
+def slow_kernel_groups(res):
+    """One pipeline stage at a time is made slow relative to all others (every thread of that kernel sleeps each time it
+    receives a task): a systematic walk through the 'stage X falls behind' schedules that uniform noise rarely produces.
+    Streams are long enough for a second (inter) base-layer picture, with and without TPL."""
+    rg = kernel_ranges()
+    quick = res.tier == "quick"
+    groups = []
+    confs = [({"enable_tpl_la": 1}, "motion", 128, 128, 49, 8)] if quick else \
+            [({"enable_tpl_la": 1}, "motion", 128, 128, 49, 8), ({"enable_tpl_la": 0}, "motion", 128, 128, 40, 8),
+             ({"enable_tpl_la": 1, "enc_mode": 6}, "edges", 128, 96, 40, 6), ({"enable_tpl_la": 1, "tile_columns": 1}, "fastpan", 256, 128, 36, 8)]
+    for sets, content, w, h, n, preset in confs:
+        s = {"enc_mode": preset, "logical_processors": 4, "recon_enabled": 1}
+        s.update(sets)
+        base = ["-n", str(n), "-w", str(w), "-h", str(h), "--content", content]
+        cs = [{"args": list(base), "key_args": base, "sets": dict(s), "n": n, "w": w, "h": h, "bits": 8}]
+        for k in sorted(rg):
+            for us in ([3000] if quick else [3000, 20000]):
+                lo, hi = rg[k]
+                cs.append({"args": base + ["--slow-kernel", "%x:%x:1000:%d" % (lo, hi, us)], "key_args": base, "sets": dict(s),
+                           "n": n, "w": w, "h": h, "bits": 8, "slow": k})
+        groups.append((obsfam.key_of(cs[0]), cs))
+    res.cov["slow_kernel_runs"] = sum(len(c) - 1 for _, c in groups)
+    return groups
+
+
 def run(res):
     res.cov["rule"] = ("cases = (configuration, content, thread count) x schedule-perturbation seeds; all runs of one "
                        "(configuration, content, thread count) must agree; distinct by full command line")
-    res.assumptions += ["perturbation (seeded yields/sleeps at every mutex/semaphore operation) samples schedules; it does not enumerate them",
+    res.assumptions += ["perturbation (seeded yields/sleeps at every mutex/semaphore operation, and one pipeline stage at a time slowed down) samples schedules; it does not enumerate them",
                         "exhaustive interleavings are explored on the specifications only (SRMMC, EncDecSegMC, Packetize)"]
     for cfg in ["Packetize_small.cfg", "Packetize_live.cfg"]:
         r = vlib.tlc("Packetize", cfg, timeout=3000, heap="16g")
@@ -62,5 +108,6 @@ def run(res):
                     args += ["--perturb", "%d:%d:%d" % (rng.randrange(1, 10 ** 6), rng.choice([100, 300, 600]), rng.choice([20, 100, 400]))]
                 cs.append({"args": args, "key_args": base, "sets": dict(s), "n": n, "w": w, "h": h, "bits": bits})
             groups.append((obsfam.key_of(cs[0]), cs))
+    groups += slow_kernel_groups(res)
     obsfam.run_groups(res, groups, timeout=120, known_key_fn=known, what="C04 determinism under perturbed schedules")
     res.add("traces_validated_against_impl", 0)
